@@ -9,6 +9,9 @@ TReset == Ev("reset") /\ ResetTo(Cur.sc) /\ Consume /\ failed' = FALSE
 Fuzzed == "fuzz" \in DOMAIN sc /\ sc.fuzz > 0
 TDone == /\ Ev("done") /\ Decide
          /\ Cur.closed >= 1              \* C14: whatever the response was, its body has been closed
+         \* "terminates": a failed call gives up on a body that never ends after a bounded amount (what Receive's
+         \* search for the trailers and CloseResponse drain: 4 MiB each)
+         /\ ("drained_kb" \in DOMAIN Cur => Cur.drained_kb <= 12288)
          /\ IF Fuzzed
             THEN Cur.ok \/ Cur.code >= 1        \* arbitrary bytes: success or a coded non-OK error, nothing else
             ELSE /\ Allows(verdict', Cur.ok, Cur.code)
